@@ -13,7 +13,7 @@
 #include "der.h"
 #include "sm2_ref.h"
 
-static uint8_t VAL[16][64]; static const char *VNAME[16]; static int NV, VVALID[16];
+static uint8_t VAL[24][64]; static const char *VNAME[24]; static int NV, VVALID[24];
 static void bn_be(uint8_t o[32], const BIGNUM *b) { sr_bn_to_bytes32(o, b); }
 static void addv(const char *n, const uint8_t xy[64]) { memcpy(VAL[NV], xy, 64); VNAME[NV] = n; VVALID[NV] = sr_xy_on_curve(xy); NV++; }
 static uint8_t GOOD[64], GOODD[32];
@@ -29,8 +29,8 @@ static void build_values(void) {
 	memcpy(v, GOOD, 64); memset(v, 0xff, 32); addv("x=2^256-1", v);
 	memcpy(v, GOOD, 64); memset(v + 32, 0xff, 32); addv("y=2^256-1", v);
 	/* a valid point with a small x (so that x+p fits in 256 bits), then the wrapped form x+p */
-	for (unsigned xs = 1; xs < 200; xs++) { uint8_t c[64] = {0}; c[31] = (uint8_t)xs; EC_POINT *P = EC_POINT_new(sr_group()); BN_set_word(t, xs); if (EC_POINT_set_compressed_coordinates(sr_group(), P, t, 0, sr_ctx()) == 1) { sr_point_to_xy(P, c); addv("valid-small-x", c); BN_add(t, t, p); bn_be(v, t); memcpy(v + 32, c + 32, 32); addv("small-x+p", v);
-			BN_bin2bn(c + 32, 32, y); BN_add(y, y, p); if (BN_num_bits(y) <= 256) { memcpy(v, c, 32); bn_be(v + 32, y); addv("small-x,y+p", v); } EC_POINT_free(P); break; } EC_POINT_free(P); ERR_clear_error(); }
+	for (unsigned xs = 0, found = 0; xs < 200 && found < 2; xs++) { uint8_t c[64] = {0}; c[31] = (uint8_t)xs; EC_POINT *P = EC_POINT_new(sr_group()); BN_set_word(t, xs); if (EC_POINT_set_compressed_coordinates(sr_group(), P, t, 0, sr_ctx()) == 1) { sr_point_to_xy(P, c); addv("valid-small-x", c); BN_add(t, t, p); bn_be(v, t); memcpy(v + 32, c + 32, 32); addv("small-x+p", v);
+			BN_bin2bn(c + 32, 32, y); BN_add(y, y, p); if (BN_num_bits(y) <= 256) { memcpy(v, c, 32); bn_be(v + 32, y); addv("small-x,y+p", v); } found++; } EC_POINT_free(P); ERR_clear_error(); }
 	memset(v, 0, 64); v[31] = 1; addv("x=1,y=0", v); memset(v, 0, 64); v[63] = 1; addv("x=0,y=1", v);
 	BN_free(t); BN_free(y);
 }
